@@ -187,6 +187,27 @@ pub fn run(ctx: &Ctx) -> CheckResult {
     findings.extend(f0);
     herr.extend(h0);
 
+    // initial-state variation: binary and debug-info paths already exist with longer content
+    let mut stale_cases: Vec<Case> = vec![];
+    for (i, c) in bases.iter().enumerate() {
+        if !compiles[i] || (quick && i % 6 != (ctx.seed % 6) as usize && !c.name.contains("extra/")) {
+            continue;
+        }
+        let mut sc = c.clone();
+        sc.steps.truncate(1);
+        sc.oracle = "stale".into();
+        sc.name = format!("{} [stale outputs]", c.name);
+        let junk: Vec<u8> = (0..90000u32).map(|k| b'a' + (k % 23) as u8).collect();
+        sc.inputs.push(crate::case::Input::bytes(scen::OUT, junk.clone()));
+        sc.inputs.push(crate::case::Input::bytes(scen::DBG, junk));
+        sc.meta = json!({"stale": [scen::OUT, scen::DBG]});
+        stale_cases.push(sc);
+    }
+    let (_r, st_s, f_s, h_s) = par_map(ctx, &stale_cases, |w, _, c| w.judge(c));
+    stats.merge(st_s);
+    findings.extend(f_s);
+    herr.extend(h_s);
+
     // fault campaign on the compile step (both outputs)
     let mut by_class: BTreeMap<String, Vec<usize>> = BTreeMap::new();
     for (i, c) in bases.iter().enumerate() {
